@@ -35,6 +35,7 @@ def analyse(program):
     closures = ClosureCache(P)
     sv = rules_struct.V()
     unfollowed = []
+    budget_exhausted = []
     for fn in P.entries():
         kind = "api"
         if fn is drop:
@@ -68,7 +69,13 @@ def analyse(program):
         isf = fn.f.get("impl_self") or {}
         if (fn.f.get("impl_trait") in FWD_TRAITS or fn.f.get("impl_trait") in REF_TRAITS) and isf.get("adt") == RC:
             rules.append(Forward(fn, hb))
-        eng = P.run(fn, rules)
+        try:
+            eng = P.run(fn, rules)
+        except Inconclusive as exc:
+            # this entry point cannot be finished within the budget: no verdict for it, but what the other entry points and
+            # the structural rules (call graph, visibility, address ordering) find is still reported
+            budget_exhausted.append(str(exc))
+            continue
         for u in eng.unfollowed:
             if u not in unfollowed:
                 unfollowed.append(u)
@@ -134,7 +141,7 @@ def analyse(program):
             res.obligations.add((rule, what, p[0], p[1], "%s:%s" % (t.get("file"), t.get("line"))))
         else:
             res.obligations.add((rule, what, str(where[0]), str(where[1]), ""))
-    res.inconclusive = ["%s, so no verdict can be given" % u for u in unfollowed]
+    res.inconclusive = ["%s, so no verdict can be given" % u for u in unfollowed] + budget_exhausted
     seen_ = set()
     for e, b, what in P.inliner.lazy_unexpanded:
         if what not in seen_:
